@@ -34,11 +34,14 @@ type scenario struct {
 	QMax      int32
 	Listen    string // peer | refuse | blackhole
 	Sequel    int    // > 0: callers 1..Sequel run concurrently and caller c+Sequel is the same goroutine's next call
+	NotifyGate bool  // the second call of each goroutine waits until the client has received the close notification
 	HoldUnreg int    // ms every caller is held in the mux.unreg.begin hook (after it left its select, before the cleanup)
 	Script    script
 }
 
 type scState struct {
+	pushSeen chan struct{} // closed when a packet with request id 0 has reached AdapterProxy.Recv
+	pushOnce sync.Once
 	sc    *scenario
 	rec   *recorder
 	sp    *tars.ServantProxy
@@ -166,6 +169,7 @@ func hook(point string, a ...interface{}) {
 		case "mux.recv.begin":
 			st.rec.emit("RecvBegin", "q", q, "id", mid(pk.IRequestId))
 			if pk.IRequestId == 0 {
+				st.pushOnce.Do(func() { close(st.pushSeen) })
 				atomic.AddInt32(&st.open, -1)
 			}
 		case "mux.recv.lookup":
@@ -266,7 +270,7 @@ func runScenario(seed int64, sc *scenario) ([]tr.Ev, []string) {
 	obj := fmt.Sprintf("Mux.S%dx%d.Obj@tcp -h 127.0.0.1 -p %d -t 60000", seed, sc.Idx, port)
 	sp := tars.NewServantProxy(comm, obj)
 	sp.TarsSetTimeout(sc.CfgTO)
-	st := &scState{sc: sc, rec: rec, sp: sp, port: fmt.Sprint(port)}
+	st := &scState{sc: sc, rec: rec, sp: sp, port: fmt.Sprint(port), pushSeen: make(chan struct{})}
 	tars.VerifSetMsgID(sc.Start)
 	start, _ := mapID(sc.Start)
 	rec.t0 = time.Now()
@@ -289,6 +293,14 @@ func runScenario(seed int64, sc *scenario) ([]tr.Ev, []string) {
 			defer wg.Done()
 			if sc.Sequel > 0 && c <= sc.Sequel {
 				defer doCall(c + sc.Sequel)
+			}
+			if sc.NotifyGate && c > sc.Sequel {
+				select {
+				case <-st.pushSeen:
+				case <-time.After(3 * time.Second):
+					rec.fail("the close notification never reached the client")
+				}
+				time.Sleep(time.Duration([]int{2, 20, 100, 450, 700, 1200}[(c+sc.Idx)%6]) * time.Millisecond)
 			}
 			defer atomic.StoreInt32(&returned[c], 1)
 			payload := make([]byte, 6)
